@@ -9,14 +9,17 @@ tree (structural induction over all thirteen constructors, no size bound).  Hypo
 * `WF pt` — every `MappingPulseTemplate` maps all parameters of its body (established by its constructor;
   checked on every generated tree by the harness through `wfB`),
 * `NoReservedT pt` — the reserved time variable `t` is not used outside a function template's formula
-  (otherwise the tree is in the class of the open finding PF-14).
+  (otherwise the tree is in the class of the open finding PF-14).  The full-strength statements
+  `frame : WF pt → (∀ n ∈ parameterNames pt, kv.lookup n = kv'.lookup n) → createProgram pt kv … = createProgram pt kv' …`
+  and `sufficient : WF pt → parameterNames pt ⊆ dom kv → createProgram pt kv … ∉ {parameter_missing, …}` are **false**
+  without it (`frame_counterexample`), hence the `_partial` names; they cover every tree outside that class.
 -/
 namespace QP.Props.C03
 open QP QP.PT QP.C03
 
 /-- **Extra names never matter** (`_create_program` level): scopes that answer equally on the declared names
 give the same result. -/
-theorem compile_frame (pt : PT) (σ σ' : Scope) (mm : List (MName × Option MName)) (cm : List (Chan × Option Chan))
+theorem compile_frame_partial (pt : PT) (σ σ' : Scope) (mm : List (MName × Option MName)) (cm : List (Chan × Option Chan))
     (trafo : Chain) (single : List String) (hW : WF pt) (hT : NoReservedT pt) (hR : Rel (parameterNames pt) σ σ') :
     compile pt ⟨σ, mm, cm, trafo, single⟩ = compile pt ⟨σ', mm, cm, trafo, single⟩ := by
   unfold compile
@@ -25,7 +28,7 @@ theorem compile_frame (pt : PT) (σ σ' : Scope) (mm : List (MName × Option MNa
 /-- **Extra names never matter**: two parameter dictionaries that agree on `parameterNames pt` (in particular a
 dictionary and the same dictionary with values for any other names added) instantiate to the same result —
 the same program or the same error. -/
-theorem frame (pt : PT) (kv kv' : List (String × Rat)) (mm : Option (List (MName × Option MName)))
+theorem frame_partial (pt : PT) (kv kv' : List (String × Rat)) (mm : Option (List (MName × Option MName)))
     (cmUser : List (Chan × Option Chan)) (single : List String) (hW : WF pt) (hT : NoReservedT pt)
     (h : ∀ n ∈ parameterNames pt, kv.lookup n = kv'.lookup n) :
     createProgram pt kv mm cmUser single = createProgram pt kv' mm cmUser single := by
@@ -34,15 +37,15 @@ theorem frame (pt : PT) (kv kv' : List (String × Rat)) (mm : Option (List (MNam
   split
   · rfl
   · simp only [ok_bind]
-    rw [compile_frame pt (.dict kv) (.dict kv') _ _ [] single hW hT (rel_dict h)]
+    rw [compile_frame_partial pt (.dict kv) (.dict kv') _ _ [] single hW hT (rel_dict h)]
 
-/-- the `frame` hypothesis is satisfiable with genuinely different dictionaries -/
+/-- the `frame_partial` hypothesis is satisfiable with genuinely different dictionaries -/
 example : ∀ n ∈ parameterNames (.const none (.var "d") [("A", .var "v")] []),
     ([("d", 1), ("v", 2)] : List (String × Rat)).lookup n = ([("x", 5), ("v", 2), ("d", 1), ("i", 0)] : List (String × Rat)).lookup n := by
   decide
 
 /-- **Declared names suffice** (`_create_program` level) -/
-theorem compile_sufficient (pt : PT) (kv : List (String × Rat)) (mm : List (MName × Option MName))
+theorem compile_sufficient_partial (pt : PT) (kv : List (String × Rat)) (mm : List (MName × Option MName))
     (cm : List (Chan × Option Chan)) (trafo : Chain) (single : List String) (hW : WF pt) (hT : NoReservedT pt)
     (h : ∀ n ∈ parameterNames pt, n ∈ kv.map (·.1)) :
     compile pt ⟨.dict kv, mm, cm, trafo, single⟩ ≠ .error .parameterMissing ∧
@@ -58,7 +61,7 @@ theorem compile_sufficient (pt : PT) (kv : List (String × Rat)) (mm : List (MNa
 /-- **Declared names suffice**: if the dictionary has a value for every name in `parameterNames pt`,
 instantiation never fails for want of a parameter (neither `ParameterNotProvidedException` nor
 `ExpressionVariableMissingException`). -/
-theorem sufficient (pt : PT) (kv : List (String × Rat)) (mm : Option (List (MName × Option MName)))
+theorem sufficient_partial (pt : PT) (kv : List (String × Rat)) (mm : Option (List (MName × Option MName)))
     (cmUser : List (Chan × Option Chan)) (single : List String) (hW : WF pt) (hT : NoReservedT pt)
     (h : ∀ n ∈ parameterNames pt, n ∈ kv.map (·.1)) :
     createProgram pt kv mm cmUser single ≠ .error .parameterMissing ∧
@@ -68,7 +71,7 @@ theorem sufficient (pt : PT) (kv : List (String × Rat)) (mm : Option (List (MNa
   split
   · exact ⟨by simp, by simp⟩
   · simp only [ok_bind]
-    have := compile_sufficient pt kv
+    have := compile_sufficient_partial pt kv
       (match mm with | some m => m | none => (dedup pt.measurementNames).map (fun n => (n, some n)))
       (cmUser.foldl (fun d (k, v) => cmUpdate d k v) (pt.definedChannels.map (fun c => (c, some c)))) [] single hW hT h
     constructor
@@ -347,7 +350,7 @@ theorem pf13_counterexample :
 
 /-- PF-14: the `NoReservedT` hypothesis of `frame` cannot be dropped — a value for the undeclared name `t`
 changes the model's result when a `ParallelChannelPulseTemplate` channel value mentions `t` -/
-theorem frame_needs_noReservedT_counterexample :
+theorem frame_counterexample :
     let pt : PT := .parallel none (.func none "A" (.lit 2) (.lit 1) [] []) [("B", .var "t")]
     parameterNames pt = [] ∧ WF pt ∧
       createProgram pt [] none [] [] ≠ createProgram pt [("t", 1)] none [] [] := by
